@@ -219,10 +219,14 @@ def routes_of(cls: ast.ClassDef) -> Optional[List[Tuple[str, str]]]:
                         raise ValueError(f"{cls.name}: route {args[0].value!r} has an unrecognised validator {v}")
                     g = validators[v]
             routes.append((args[0].value, g))
-    # no other spelling may add a node-level route
+    # no other spelling may add a node-level route: every `rm.add_request` call must be one of the top-level literal statements
+    # read above (a loop or a helper that adds routes with computed keys would otherwise be skipped silently)
+    top = {id(st.value) for st in fn.body if isinstance(st, ast.Expr) and isinstance(st.value, ast.Call)}
     for n in ast.walk(fn):
         if isinstance(n, ast.Call) and ast.unparse(n.func) in ("self._request_manager.add_request",):
             raise ValueError(f"{cls.name}: node-level route added through self._request_manager")
+        if isinstance(n, ast.Call) and ast.unparse(n.func) == f"{rm_name}.add_request" and id(n) not in top:
+            raise ValueError(f"{cls.name}: node-level route added outside a top-level literal statement: {ast.unparse(n)[:80]}")
     return routes
 
 
@@ -383,6 +387,36 @@ def nic_inventory() -> List[Tuple[str, str, bool]]:
         ab, conc = _own_abstract(c)
         return (pend - conc) | ab
     return [(name, rel, not pending_of(rel, c)) for rel, name, c in subs]
+
+
+def nic_enable_defs() -> List[Tuple[str, str, str]]:
+    """(class, method, kind) for every enable()/disable() defined at or below NetworkInterface: `abstract`, `guarded` (the two
+    base implementations whose guard lists are read by guard_list), `super+hello` (IP…Interface.enable: super().enable(), the
+    default-gateway hello, return), `plain-disable` (sets enabled False, link/airspace bookkeeping), `other`.  The theorem pins the list: an override in a
+    concrete interface class (which would bypass the node-is-on test) shows up as a new entry."""
+    out = []
+    for rel, name, c in _subclasses_of("NetworkInterface"):
+        for n in c.body:
+            if not isinstance(n, ast.FunctionDef) or n.name not in ("enable", "disable"):
+                continue
+            decos = {ast.unparse(d) for d in n.decorator_list}
+            body = [x for x in n.body if not _is_log(x)]
+            src = ast.unparse(n)
+            if "abstractmethod" in decos:
+                kind = "abstract"
+            elif n.name == "enable" and name in ("WiredNetworkInterface", "WirelessNetworkInterface"):
+                guard_list(n, f"{name}.enable")  # raises unless it is the guarded shape
+                kind = "guarded"
+            elif n.name == "enable" and len(body) == 3 and "super().enable()" in ast.unparse(body[0]) \
+                    and isinstance(body[1], ast.If) and "default_gateway_hello" in ast.unparse(body[1]) and isinstance(body[2], ast.Return):
+                kind = "super+hello"
+            elif n.name == "disable" and name in ("WiredNetworkInterface", "WirelessNetworkInterface") and "self.enabled = False" in src \
+                    and "self.enabled = True" not in src:
+                kind = "plain-disable"
+            else:
+                kind = "other"   # listed, so that the theorem pins which classes have one (today: the two unimportable modules)
+            out.append((name + "@" + rel.split("/")[-1], n.name, kind))
+    return out
 
 
 # ------------------------------------------------------------------------------------------------ per-tick statements
@@ -677,6 +711,9 @@ def emit() -> str:
     lines.append("/-- NetworkInterface and every class below it: (class, file, instantiable) -/")
     lines.append("def nicClasses : List (String × String × Bool) := [" +
                  ", ".join(f"({lean_str(n)}, {lean_str(rel)}, {b(i)})" for n, rel, i in nic_inventory()) + "]")
+    lines.append("/-- every definition of enable() / disable() at or below NetworkInterface, with its shape -/")
+    lines.append("def nicEnableDefs : List (String × String × String) := [" +
+                 ", ".join(f"({lean_str(a)}, {lean_str(b_)}, {lean_str(c_)})" for a, b_, c_ in nic_enable_defs()) + "]")
     lines.append("/-- every top-level statement of `Node.apply_timestep` with the power test it sits under -/")
     lines.append("def tickStmts : List (StmtGuard × TickStmt) := [" +
                  ", ".join(f"(.{g}, .{t})" for g, t in guarded_statements(find_method(node, "apply_timestep"), "apply_timestep")) + "]")
